@@ -140,7 +140,7 @@ pub fn run(seed: u64, thorough: bool, out_dir: &std::path::Path, scratch: &std::
         .map(|i| { let mut cf = CaseFile::new(out_dir, &format!("cases_{:02}", i), header); cf.group("store", "scase", "check_scase"); cf })
         .collect();
     let mut descs: Vec<BTreeMap<String, Vec<Value>>> = (0..shards).map(|_| BTreeMap::new()).collect();
-    let n_hist = if thorough { 500 } else { 60 };
+    let n_hist = hx_common::shard_share_usize(if thorough { 500 } else { 60 });
     for hi in 0..n_hist {
         let cfg = ChainCfg {
             window: *rng.pick(&[(1u64, 2u64), (1, 3), (2, 4), (2, 10)]),
@@ -241,7 +241,7 @@ pub fn run(seed: u64, thorough: bool, out_dir: &std::path::Path, scratch: &std::
         }
     }
     // ---- stream 2: snapshots taken by a reader thread while blocks are being processed
-    let n_conc = if thorough { 60 } else { 8 };
+    let n_conc = hx_common::shard_share(if thorough { 60 } else { 8 });
     for ci in 0..n_conc {
         let cfg = ChainCfg { window: *rng.pick(&[(1u64, 2u64), (2, 4)]), genesis_epoch_length: *rng.pick(&[5u64, 1000]), ..Default::default() };
         let mut h = Hist::new(cfg.clone(), scratch.join(format!("c{ci}")), false);
